@@ -3129,7 +3129,7 @@ example (env : Env) (f : Flag) :
 #print axioms m_stored_segment_metadata
 #print axioms evaluate_stored_segment_metadata
 
-/-! ## 12. Reported metadata of stored flags (PARTIAL: one-step lemma only)
+/-! ## 12. Reported metadata of stored flags (one-step lemma; completed in 12b below)
 
   The full statement — NOT proved here — is
 
@@ -3248,6 +3248,317 @@ theorem e_prereqLoop_remeta {g : Flag → Flag} (hg : MetaOnly g) (env : Env) {r
             split
             · exact ⟨rfl, hs4⟩
             · exact ih _ _ hs4
+
+/-! ### 12b. The full statement of section 12, proved
+
+  `evaluate_stored_metadata_modulo_reported`: for every `MetaOnly g`, the observation of `Evaluate`
+  is unchanged except in the two event fields that report a prerequisite's metadata.  Route: frame
+  lemmas (`fr_*`: the functions that never touch `events` commute with replacing that field),
+  `sim_of_fr`, `e_evalBody_remeta`, `e_evalFlag_remeta` (fuel induction establishing `RecSim`).
+  The header of section 12 above predates this proof: nothing is missing any more.
+-/
+
+open LD
+
+def setEv (ev : List Event) (st : St) : St := { st with events := ev }
+
+def Fr {α : Type} (F : St → α × St) : Prop :=
+  ∀ ev st, F (setEv ev st) = ((F st).1, setEv ev (F st).2)
+
+def SegFr (rec : LD.SegRec) : Prop := ∀ s ch, Fr (rec s ch)
+
+theorem fr_segMatchValues {rec : LD.SegRec} (hrec : SegFr rec) (env : Env) (negate : Bool)
+    (chain : List String) : ∀ vs, Fr (LD.segMatchValues rec env negate chain vs) := by
+  intro vs
+  induction vs with
+  | nil => intro ev st; rfl
+  | cons v vs ih =>
+    intro ev st
+    cases v with
+    | str k =>
+      simp only [LD.segMatchValues]
+      have e : ({ setEv ev st with segLookups := (setEv ev st).segLookups ++ [k] } : St) =
+          setEv ev { st with segLookups := st.segLookups ++ [k] } := rfl
+      rw [e]
+      cases env.store.findSegment k with
+      | none => exact ih _ _
+      | some seg =>
+        simp only [hrec seg chain ev]
+        generalize rec seg chain { st with segLookups := st.segLookups ++ [k] } = p
+        rcases p with ⟨r, s2⟩
+        rcases r with b | e | _
+        · cases b
+          · exact ih _ _
+          · rfl
+        · rfl
+        · rfl
+    | null => simp only [LD.segMatchValues]; exact ih _ _
+    | bool b => simp only [LD.segMatchValues]; exact ih _ _
+    | num q => simp only [LD.segMatchValues]; exact ih _ _
+    | arr xs => simp only [LD.segMatchValues]; exact ih _ _
+    | obj kvs => simp only [LD.segMatchValues]; exact ih _ _
+    | raw w => simp only [LD.segMatchValues]; exact ih _ _
+
+theorem fr_clauseMatch {rec : LD.SegRec} (hrec : SegFr rec) (env : Env) (chain : List String)
+    (c : Clause) : Fr (LD.clauseMatch rec env chain c) := by
+  intro ev st
+  unfold LD.clauseMatch
+  split
+  · exact fr_segMatchValues hrec env _ chain _ ev st
+  · rfl
+
+theorem fr_clausesMatch {rec : LD.SegRec} (hrec : SegFr rec) (env : Env) (chain : List String) :
+    ∀ cs, Fr (LD.clausesMatch rec env chain cs) := by
+  intro cs
+  induction cs with
+  | nil => intro ev st; rfl
+  | cons c cs ih =>
+    intro ev st
+    simp only [LD.clausesMatch, fr_clauseMatch hrec env chain c ev st]
+    generalize LD.clauseMatch rec env chain c st = p
+    rcases p with ⟨r, s2⟩
+    rcases r with b | e | _
+    · cases b
+      · rfl
+      · exact ih _ _
+    · rfl
+    · rfl
+
+theorem fr_segRuleMatch {rec : LD.SegRec} (hrec : SegFr rec) (env : Env) (chain : List String)
+    (key salt : String) (r : SegmentRule) : Fr (LD.segRuleMatch rec env chain key salt r) := by
+  intro ev st
+  simp only [LD.segRuleMatch, fr_clausesMatch hrec env chain r.clauses ev st]
+  generalize LD.clausesMatch rec env chain r.clauses st = p
+  rcases p with ⟨r', s2⟩
+  rcases r' with b | e | _
+  · cases b
+    · rfl
+    · simp only
+      split
+      · rfl
+      · split
+        · rfl
+        · split <;> rfl
+  · rfl
+  · rfl
+
+theorem fr_segRules {rec : LD.SegRec} (hrec : SegFr rec) (env : Env) (chain : List String)
+    (s : Segment) : ∀ rs, Fr (LD.segRules rec env chain s rs) := by
+  intro rs
+  induction rs with
+  | nil => intro ev st; rfl
+  | cons r rs ih =>
+    intro ev st
+    simp only [LD.segRules, fr_segRuleMatch hrec env chain s.key s.salt r ev st]
+    generalize LD.segRuleMatch rec env chain s.key s.salt r st = p
+    rcases p with ⟨r', s2⟩
+    rcases r' with b | e | _
+    · cases b
+      · exact ih _ _
+      · rfl
+    · rfl
+    · rfl
+
+theorem fr_bigSegMembership (env : Env) (key : String) : Fr (LD.bigSegMembership env key) := by
+  intro ev st
+  unfold LD.bigSegMembership
+  have e : (setEv ev st).cache = st.cache := rfl
+  rw [e]
+  cases st.cache.lookup key with
+  | some m => rfl
+  | none => cases env.bs <;> rfl
+
+theorem fr_segBody {rec : LD.SegRec} (hrec : SegFr rec) (env : Env) (s : Segment)
+    (chain : List String) : Fr (LD.segBody rec env s chain) := by
+  intro ev st
+  unfold LD.segBody
+  split
+  · rfl
+  · simp only
+    split
+    · split
+      · rfl
+      · split
+        · rfl
+        · rw [fr_bigSegMembership env _ ev st]
+          generalize LD.bigSegMembership env _ st = p
+          rcases p with ⟨m, s1⟩
+          cases m with
+          | none => exact fr_segRules hrec env _ s _ ev s1
+          | some tbl =>
+            simp only
+            split
+            · rfl
+            · exact fr_segRules hrec env _ s _ ev { s1 with memChecks := s1.memChecks ++ [(_, bigSegmentRef s)] }
+    · split
+      · rfl
+      · exact fr_segRules hrec env _ s _ ev st
+
+theorem fr_segContains (env : Env) : ∀ n, SegFr (LD.segContains n env) := by
+  intro n
+  induction n with
+  | zero => intro s ch ev st; rfl
+  | succ n ih => intro s ch; exact fr_segBody ih env s ch
+
+theorem fr_logErr (env : Env) (k : String) (e : EvalErr) (ev : List Event) (st : St) :
+    LD.logErr env k e (setEv ev st) = setEv ev (LD.logErr env k e st) := by
+  unfold LD.logErr
+  split <;> rfl
+
+theorem fr_getVariation (env : Env) (f : Flag) (i : Int) (r : Reason) :
+    Fr (LD.getVariation env f i r) := by
+  intro ev st
+  unfold LD.getVariation
+  split
+  · simp only [fr_logErr]
+  · rfl
+
+theorem fr_getOffValue (env : Env) (f : Flag) (r : Reason) : Fr (LD.getOffValue env f r) := by
+  intro ev st
+  unfold LD.getOffValue
+  split
+  · rfl
+  · exact fr_getVariation env f _ r ev st
+
+theorem fr_getValueForVR (env : Env) (f : Flag) (vr : VariationOrRollout) (r : Reason) :
+    Fr (LD.getValueForVR env f vr r) := by
+  intro ev st
+  unfold LD.getValueForVR
+  split
+  · simp only [fr_logErr]
+  · exact fr_getVariation env f _ _ ev st
+
+theorem fr_rulesLoop {seg : LD.SegRec} (hseg : SegFr seg) (env : Env) (f : Flag) :
+    ∀ rs i, Fr (LD.rulesLoop seg env f rs i) := by
+  intro rs
+  induction rs with
+  | nil =>
+    intro i ev st
+    simp only [LD.rulesLoop, fr_getValueForVR env f _ _ ev st]
+  | cons r rs ih =>
+    intro i ev st
+    simp only [LD.rulesLoop, fr_clausesMatch hseg env [] r.clauses ev st]
+    generalize LD.clausesMatch seg env [] r.clauses st = p
+    rcases p with ⟨r', s2⟩
+    rcases r' with b | e | _
+    · cases b
+      · exact ih _ _ _
+      · simp only [fr_getValueForVR env f _ _ ev s2]
+    · simp only [fr_logErr]
+    · rfl
+
+/-- A framed function is a simulation modulo `eraseSt`. -/
+theorem sim_of_fr {α : Type} {F : St → α × St} (h : Fr F) {a b : St}
+    (hab : eraseSt a = eraseSt b) :
+    (F a).1 = (F b).1 ∧ eraseSt (F a).2 = eraseSt (F b).2 := by
+  have hb : b = setEv b.events a := by
+    rw [eraseSt_eq_iff] at hab
+    obtain ⟨h1, h2, h3, h4, h5, h6, h7, h8⟩ := hab
+    cases a; cases b
+    simp only [setEv, St.mk.injEq] at *
+    simp [*]
+  have ha : (F a).2.events = a.events := by
+    have e : a = setEv a.events a := by cases a; rfl
+    have := h a.events a
+    rw [← e] at this
+    have h2 := congrArg (fun p => p.2.events) this
+    simpa [setEv] using h2
+  have hF := h b.events a
+  rw [← hb] at hF
+  rw [hF]
+  refine ⟨rfl, ?_⟩
+  rw [eraseSt_eq_iff]
+  simp only [setEv, ha]
+  simpa using ((eraseSt_eq_iff _ _).1 hab).2.2.2.2.2.2.2
+
+theorem e_evalBody_remeta {g : Flag → Flag} (hg : MetaOnly g) (env : Env) {rec' rec : LD.FlagRec}
+    (hrec : RecSim g rec' rec) {seg : LD.SegRec} (hseg : SegFr seg) (f : Flag)
+    (chain : List String) (a b : St) (hab : eraseSt a = eraseSt b) :
+    (LD.evalBody rec' seg (remetaStore env g) f chain a).1 = (LD.evalBody rec seg env f chain b).1 ∧
+      eraseSt (LD.evalBody rec' seg (remetaStore env g) f chain a).2 =
+        eraseSt (LD.evalBody rec seg env f chain b).2 := by
+  unfold LD.evalBody LD.checkPrereqs
+  simp only [m_rulesLoop_remeta, m_getOffValue_remeta, m_getVariation_remeta]
+  have hctx : (remetaStore env g).ctx = env.ctx := rfl
+  rw [hctx]
+  split
+  · have := sim_of_fr (fr_getOffValue env f .off) hab
+    exact ⟨by simp only [this.1], this.2⟩
+  · have hp : (if f.prerequisites.isEmpty then (PrereqOut.ok, a)
+          else LD.prereqLoop rec' (remetaStore env g) f (chain ++ [f.key]) f.prerequisites a).1 =
+        (if f.prerequisites.isEmpty then (PrereqOut.ok, b)
+          else LD.prereqLoop rec env f (chain ++ [f.key]) f.prerequisites b).1 ∧
+        eraseSt (if f.prerequisites.isEmpty then (PrereqOut.ok, a)
+          else LD.prereqLoop rec' (remetaStore env g) f (chain ++ [f.key]) f.prerequisites a).2 =
+        eraseSt (if f.prerequisites.isEmpty then (PrereqOut.ok, b)
+          else LD.prereqLoop rec env f (chain ++ [f.key]) f.prerequisites b).2 := by
+      split
+      · exact ⟨rfl, hab⟩
+      · exact e_prereqLoop_remeta hg env hrec f _ _ a b hab
+    revert hp
+    generalize (if f.prerequisites.isEmpty then (PrereqOut.ok, a)
+          else LD.prereqLoop rec' (remetaStore env g) f (chain ++ [f.key]) f.prerequisites a) = p
+    generalize (if f.prerequisites.isEmpty then (PrereqOut.ok, b)
+          else LD.prereqLoop rec env f (chain ++ [f.key]) f.prerequisites b) = q
+    rcases p with ⟨o, s⟩
+    rcases q with ⟨o', s'⟩
+    rintro ⟨ho, hs⟩
+    simp only at ho hs
+    subst ho
+    cases o with
+    | oof => exact ⟨rfl, hs⟩
+    | malformed => exact ⟨rfl, hs⟩
+    | failed k =>
+      have := sim_of_fr (fr_getOffValue env f (.prereqFailed k)) hs
+      exact ⟨by simp only [this.1], this.2⟩
+    | ok =>
+      simp only
+      cases anyTargetMatch env.ctx f with
+      | some v =>
+        have := sim_of_fr (fr_getVariation env f v .targetMatch) hs
+        exact ⟨by simp only [this.1], this.2⟩
+      | none => exact sim_of_fr (fr_rulesLoop hseg env f f.rules 0) hs
+
+theorem e_evalFlag_remeta {g : Flag → Flag} (hg : MetaOnly g) (env : Env) (sf : Nat) :
+    ∀ n, RecSim g (LD.evalFlag sf n (remetaStore env g)) (LD.evalFlag sf n env) := by
+  intro n
+  induction n with
+  | zero => intro pf chain a b h; exact ⟨rfl, h⟩
+  | succ n ih =>
+    intro pf chain a b h
+    rw [m_evalFlag_metaOnly hg]
+    have key := e_evalBody_remeta hg env ih (fr_segContains env sf) pf chain a b h
+    have e1 : LD.evalFlag sf (n + 1) (remetaStore env g) pf chain a =
+        LD.evalBody (LD.evalFlag sf n (remetaStore env g)) (LD.segContains sf env)
+          (remetaStore env g) pf chain a := by
+      rw [← m_segContains_remeta env g sf]; rfl
+    have e2 : LD.evalFlag sf (n + 1) env pf chain b =
+        LD.evalBody (LD.evalFlag sf n env) (LD.segContains sf env) env pf chain b := rfl
+    rw [e1, e2]
+    exact key
+
+theorem evaluate_stored_metadata_modulo_reported (env : Env) (g : Flag → Flag) (hg : MetaOnly g)
+    (f : Flag) :
+    eraseObs (evaluate (remetaStore env g) f) = eraseObs (evaluate env f) := by
+  unfold evaluate
+  rw [segFuel_remeta, flagFuel_remeta hg]
+  have hctx : (remetaStore env g).ctx = env.ctx := rfl
+  rw [hctx]
+  have hsim := e_evalFlag_remeta hg env (segFuel env.store) (flagFuel env.store) f [] {} {} rfl
+  rw [m_evalFlag_metaOnly hg] at hsim
+  revert hsim
+  generalize LD.evalFlag (segFuel env.store) (flagFuel env.store) (remetaStore env g) f [] {} = p
+  generalize LD.evalFlag (segFuel env.store) (flagFuel env.store) env f [] {} = q
+  rcases p with ⟨o, s⟩
+  rcases q with ⟨o', s'⟩
+  rintro ⟨ho, hs⟩
+  simp only at ho hs
+  subst ho
+  rw [eraseSt_eq_iff] at hs
+  obtain ⟨h1, h2, h3, h4, h5, h6, h7, h8⟩ := hs
+  split
+  · rfl
+  · simp only [eraseObs, h1, h3, h4, h5, h6, h7, h8]
 
 end LD.C20
 
